@@ -7,6 +7,7 @@ import (
 	"go/types"
 	"sort"
 	"strings"
+	"sync"
 
 	"golang.org/x/tools/go/ssa"
 )
@@ -31,6 +32,11 @@ type Encoder struct {
 	err      error
 	axiomsIn map[string]bool
 	inlineStack []*ssa.Function
+	lemmaLines  []string
+	lineBlk     []*ssa.BasicBlock // block of the function under contract in which each line was emitted (nil = global)
+	curBlk      *ssa.BasicBlock
+	anc         map[*ssa.BasicBlock]map[*ssa.BasicBlock]bool
+	blockCases  map[*ssa.BasicBlock][]string // incoming edge conditions of join blocks (for the case-split fallback)
 }
 
 type encErr struct{ msg string }
@@ -46,7 +52,33 @@ func (e *Encoder) note(s string) {
 	}
 }
 
-func (e *Encoder) emit(s string) { e.lines = append(e.lines, s) }
+func (e *Encoder) emit(s string) {
+	e.lines = append(e.lines, s)
+	e.lineBlk = append(e.lineBlk, e.curBlk)
+}
+
+// ancestors of b in the loop-cut CFG of the function under contract (blocks from which b is reachable).
+func (e *Encoder) ancestorsOf(b *ssa.BasicBlock) map[*ssa.BasicBlock]bool {
+	if a, ok := e.anc[b]; ok {
+		return a
+	}
+	a := map[*ssa.BasicBlock]bool{b: true}
+	var walk func(x *ssa.BasicBlock)
+	walk = func(x *ssa.BasicBlock) {
+		for _, p := range x.Preds {
+			if !a[p] && !isBackEdge(p, x) {
+				a[p] = true
+				walk(p)
+			}
+		}
+	}
+	walk(b)
+	if e.anc == nil {
+		e.anc = map[*ssa.BasicBlock]map[*ssa.BasicBlock]bool{}
+	}
+	e.anc[b] = a
+	return a
+}
 
 func (e *Encoder) fresh(base string) string {
 	e.n++
@@ -96,7 +128,10 @@ func (e *Encoder) comp(st *State, name, sort string) string {
 	init := smtQuote(name + "@0")
 	if !e.compDecl[name] {
 		e.compDecl[name] = true
+		saved := e.curBlk
+		e.curBlk = nil // entry-state components are global to the function's encoding
 		e.emit(fmt.Sprintf("(declare-const %s %s)", init, e.compSort[name]))
+		e.curBlk = saved
 	}
 	return init
 }
@@ -433,7 +468,10 @@ func (e *Encoder) oblige(kind, label, pc, goal, desc string, pos token.Pos, prop
 			props = e.caseC.Props
 		}
 	}
-	o := &Obligation{Name: name, Func: e.name, Kind: kind, Props: props, Prefix: len(e.lines), PC: pc, Goal: goal, Desc: desc, enc: e}
+	o := &Obligation{Name: name, Func: e.name, Kind: kind, Props: props, Prefix: len(e.lines), PC: pc, Goal: goal, Desc: desc, enc: e, Block: e.curBlk}
+	if e.curBlk != nil {
+		o.Cases = e.blockCases[e.curBlk]
+	}
 	if pos.IsValid() {
 		p := e.prog.Fset.Position(pos)
 		o.Pos = fmt.Sprintf("%s:%d", p.Filename, p.Line)
@@ -443,15 +481,41 @@ func (e *Encoder) oblige(kind, label, pc, goal, desc string, pos token.Pos, prop
 }
 
 // query renders the SMT text of an obligation.
-func (o *Obligation) query() string {
+func (o *Obligation) query() string { return o.queryWith(true, false) }
+
+func (o *Obligation) hasLemmas() bool { return o.Standalone == "" && len(o.enc.lemmaLines) > 0 }
+
+var renderMu sync.Mutex
+
+// queryWith renders the SMT text, with or without the lemmas the function's contract asks for, and with recursive
+// spec functions either defined or left uninterpreted. Dropping premises is always sound for proving.
+func (o *Obligation) queryWith(lemmas, opaqueRec bool) string {
 	if o.Standalone != "" {
 		return o.Standalone
 	}
+	renderMu.Lock()
+	defer renderMu.Unlock()
 	e := o.enc
+	e.ct.opaqueRec = opaqueRec
+	defer func() { e.ct.opaqueRec = false }()
 	var body strings.Builder
-	for _, l := range e.lines[:o.Prefix] {
+	var anc map[*ssa.BasicBlock]bool
+	if o.Block != nil {
+		anc = e.ancestorsOf(o.Block)
+	}
+	for i, l := range e.lines[:o.Prefix] {
+		// slice: lines emitted in blocks that cannot reach the obligation's block are irrelevant to it
+		if anc != nil && e.lineBlk[i] != nil && !anc[e.lineBlk[i]] {
+			continue
+		}
 		body.WriteString(l)
 		body.WriteByte('\n')
+	}
+	if lemmas {
+		for _, l := range e.lemmaLines {
+			body.WriteString(l)
+			body.WriteByte('\n')
+		}
 	}
 	fmt.Fprintf(&body, "(assert (not %s))\n", implies(o.PC, o.Goal))
 	text := body.String()
